@@ -34,7 +34,31 @@ func Key(i int) crypto.PrivateKey {
 
 func Pub(i int) crypto.PublicKey { return Key(i).PublicKey() }
 
-func Addr(i int) sdk.Address { return sdk.Address(Pub(i).Address()) }
+func Addr(i int) sdk.Address {
+	if i >= OddAddrBase {
+		return OddAddr(i)
+	}
+	return sdk.Address(Pub(i).Address())
+}
+
+// OddAddrBase: indices 1000*n + k (n = 1..9, k < 1000) name synthetic addresses that are not 20
+// bytes long: the first min(len,20) bytes are those of Addr(k), padded with 0xA0+n up to
+// len = 16 + n*... see OddAddr. They have no key; they only receive (awards, transfers).
+const OddAddrBase = 1000
+
+// OddAddr(1000*n+k): Addr(k) truncated or extended to 17+n bytes (n=2: 19 bytes, n=6: 23 bytes);
+// extensions of the same k with different n share their first 20 bytes.
+func OddAddr(i int) sdk.Address {
+	n, k := i/OddAddrBase, i%OddAddrBase
+	base := []byte(sdk.Address(Pub(k).Address()))
+	l := 17 + n
+	out := make([]byte, l)
+	copy(out, base)
+	for j := len(base); j < l; j++ {
+		out[j] = byte(0xA0 + n)
+	}
+	return sdk.Address(out)
+}
 
 // KeyIndexByAddr finds the key index (searching 0..n) for an address; -1 if none.
 func KeyIndexByAddr(a []byte, n int) int {
